@@ -214,7 +214,8 @@ pub fn calc_twap(
         return Ok(current_price);
     }
 
-    let base_timestamp = env.block.time.seconds().checked_sub(interval).unwrap();
+    // an interval longer than the chain's clock reaches back beyond every snapshot: the window starts at zero
+    let base_timestamp = env.block.time.seconds().saturating_sub(interval);
     let reserve_snapshot_length = read_reserve_snapshot_counter(deps.storage).unwrap();
     let mut current_snapshot = read_reserve_snapshot(deps.storage, params.snapshot_index)?;
 
